@@ -69,6 +69,9 @@ def quick_corpus():
     c.append(tok("ldn", s=1, fs=-1, interp="dct", guards=0, tag="ldn-dct-g0", eq_extra={"nR": 49, "nZ": 57}))
     c.append(tok("lsn", s=-1, fs=1, orth=False, tag="lsn-nonorth-rev", nonorthogonal_spacing_method="poloidal_orthogonal_combined"))
     c.append(tok("usn", s=-1, fs=-1, tag="usn-xyderiv", curvature_type="curl(b/B) with x-y derivatives", nx_core=4, nx_sol=4))
+    # psi decreasing outwards, and fine enough in y for the discretisation error inside the regions to be
+    # small compared with a wrong difference across a region join
+    c.append(tok("usn", s=1, fs=1, tag="usn-xyderiv-s+", curvature_type="curl(b/B) with x-y derivatives", nx_core=4, nx_sol=4, ny_inner_divertor=8, ny_outer_divertor=8, ny_sol=16))
     c.append(tok("udn", s=1, fs=1, orth=False, guards=2, tag="udn-nonorth-g2"))
     c.append(tok("lsn", s=1, fs=1, via="geqdsk", wall={"kind": "slant", "cw": True}, tag="lsn-geqdsk-cw"))
     # strongly unequal legs (C08) -- long outer leg, long inner leg
@@ -82,8 +85,9 @@ def quick_corpus():
     ps = f_.psi_axis + 1.2 * (f_.psi_bdry - f_.psi_axis)
     c.append(tok("lsn", s=-1, fs=1, tag="lsn-extrapolate", eq_extra={"pn_max": 1.0}, extrapolate_profiles=True, psi_sol=ps, psi_sol_inner=ps))
     # a blunt inboard nose that every flux surface of the inner lower leg crosses before it reaches the
-    # floor (three wall crossings between the X-point and the floor): the target is the first one
-    c.append(tok("lsn", s=-1, fs=1, orth=False, tag="lsn-nose-nonorth", wall={"kind": "nose", "tip": 1.40}, nonorthogonal_spacing_method="poloidal_orthogonal_combined"))
+    # floor (three wall crossings between the X-point and the floor): the target is the first one.
+    # (one guard face of the innermost PFR surface comes out again under the 12 cm thick nose)
+    c.append(tok("lsn", s=-1, fs=1, orth=False, tag="lsn-nose-nonorth", wall={"kind": "nose", "tip": 1.40, "zbot": -0.46}, nonorthogonal_spacing_method="poloidal_orthogonal_combined"))
     # psi_sol given as a number overrides psinorm_sol: the second X-point (psi_N = 1.024) lies between the
     # (ignored) psinorm_sol = 1.01 and psi_sol (psi_N = 1.2), so this must be gridded as a double null
     e2_ = {"topo": "ldn", "s": 1, "fs": -1, "shift": [0.003, 0.002]}
